@@ -24,7 +24,7 @@ func init() {
 			"Get/Get1 probed only inside the bitmap"},
 		Flavours: releaseAnd386,
 		Required: []string{"of/empty-list", "of/n-absent", "of/n-negative", "of/n<last+1", "of/n>last+1", "of/last%64=63", "of/last%64=0", "probe/negative", "probe/beyond", "probe/maxint32", "probe/minint32",
-			"ofmany/pos>=size", "ofmany/size=0", "ofmany/empty-sub", "ofmany/segments-carved-from-one-arena", "builder/extend-pos>=size", "builder/extend-size=0", "builder/extend-empty", "builder/set-0", "builder/set-1", "builder/presized", "builder/over-dirty-capacity", "roundtrip/trailing-zero-words", "probe/bitmap>=2^31-bits"},
+			"ofmany/pos>=size", "ofmany/size=0", "ofmany/empty-sub", "ofmany/segments-carved-from-one-arena", "ofmany/shifted-list-not-ascending", "builder/extend-pos>=size", "builder/extend-size=0", "builder/extend-empty", "builder/set-0", "builder/set-1", "builder/presized", "builder/over-dirty-capacity", "roundtrip/trailing-zero-words", "probe/bitmap>=2^31-bits"},
 		Families: func(c *mon.Config) []mon.Family {
 			return []mon.Family{
 				{Name: "cold-start", N: 1, Serial: true, Run: func(w *mon.W, _ int) {
@@ -405,7 +405,15 @@ func c12OfMany(w *mon.W, idx int) {
 		base += s.size
 	}
 	if !asc {
-		return // outside Of's domain (merged list not ascending)
+		// a position >= its segment's size reaches into the following segments: the shifted list is then not ascending.
+		// The statement still covers it ("including positions >= size") as long as every shifted position lies inside
+		// the total size (beyond that even the unchanged library indexes out of range: outside the domain)
+		for _, p := range merged {
+			if p >= base {
+				return
+			}
+		}
+		w.Bucket("ofmany/shifted-list-not-ascending")
 	}
 	// the segments as a caller holds them: separate slices, or views carved from ONE arena (each view's spare
 	// capacity is the rest of the arena, i.e. the other segments), laid out in call order or in reverse
